@@ -882,3 +882,37 @@ def isinstance_model(it, v, cls, env, node):
     if hint is not None:
         return any(n == hint or n.endswith("." + hint) for n in names)
     return op("isinstance", to_term(v), *[Str(n) for n in sorted(names)])
+
+
+# ============================================================================ element access on array terms
+def element_of(it, arr, idx):
+    """Term of element ``idx`` (tuple of index terms) of an array-valued term: distributes over arithmetic,
+    ite/where, and reads tabulate/store summaries; falls back to item(arr, idx)."""
+    arr = to_term(arr)
+    ti = to_term(idx)
+    f = fname(arr)
+    if isinstance(arr, (sp.Add, sp.Mul)):
+        parts = [element_of(it, a, idx) if not a.is_number else a for a in arr.args]
+        return arr.func(*parts)
+    if isinstance(arr, sp.Pow):
+        return element_of(it, arr.args[0], idx) ** arr.args[1] if arr.args[1].is_number else op("item", arr, ti)
+    if f == "ite":
+        return ITE(arr.args[0], element_of(it, arr.args[1], idx), element_of(it, arr.args[2], idx))
+    if f == "tabulate":
+        r = read_tabulate(it, arr, idx)
+        if r is not None and fname(r) != "tabrow":
+            return r
+        return op("item", arr, ti)
+    if f == "store":
+        base, i, v = arr.args
+        full = op("slc", NONE_T, NONE_T, NONE_T)
+        if i == ti:
+            return v
+        if i == full or (isinstance(i, sp.Tuple) and all(x == full for x in i.args)):
+            return v if not isinstance(v, sp.Basic) or v.is_number or True else v
+        return op("item", arr, ti)
+    if f in ("zeros",):
+        return sp.Integer(0)
+    if arr.is_number:
+        return arr
+    return term_getitem(it, arr, idx, None, None)
